@@ -468,6 +468,104 @@ def ties_shape(rule, kinds):
     return Shape(name, build, obligations)
 
 
+# --- (h) declaring the same rule twice loses no schedule -------------------------------------------------
+# Twin build: a small problem with one instance of a constraint class, and the same problem with a second instance
+# built from the same arguments (another name). The second declaration must not remove any schedule.
+def _constraint_classes():
+    import inspect
+    from checks import c18
+    from processscheduler.constraint import Constraint
+    out = []
+    for cname in sorted(dir(ps)):
+        cls = getattr(ps, cname)
+        if not (inspect.isclass(cls) and issubclass(cls, Constraint)) or cname in c18.SWEEP_SKIP:
+            continue
+        if cname in ("TaskLoadBuffer", "TaskUnloadBuffer"):
+            continue  # two accesses of one task to one buffer are two accesses (C09), not a repeated rule
+        out.append(cname)
+    return out
+
+
+def _declare_n(cname, n):
+    from checks import c18
+    cls = getattr(ps, cname)
+    e = c18._env()
+    made = []
+    for k in range(n):
+        req = [f for f, fi in cls.model_fields.items() if fi.is_required()]
+        kw = {r: c18.REQUIRED[r](e) for r in req}
+        if cname.startswith("OptionalTask"):
+            kw.update({x: e["o1"] for x in ("task", "task_2") if x in kw})
+        if cname == "IndicatorBounds":
+            kw["upper_bound"] = 40
+        if cname == "IndicatorTarget":
+            kw["value"] = 3
+        if cname in ("TasksEndSynced", "TasksStartSynced"):
+            kw["task_2"] = e["t3"]  # (t1 and t2 share a worker)
+        if cname.startswith("ResourcePeriodically"):
+            kw.update(list_of_time_intervals=[(0, 1)], period=6)
+        made.append(cls(name=f"under_test_{k}", **kw))
+    return e, made
+
+
+def repeated_rule_shape(cname):
+    name = f"declared_twice/{cname}"
+
+    def build(P):
+        pb1 = ps.SchedulingProblem(name="once", horizon=12)
+        _declare_n(cname, 1)
+        s1 = ps.SchedulingSolver(problem=pb1)
+        s1.initialize()
+        phi_once = list(s1._solver.assertions())
+        pb2 = ps.SchedulingProblem(name="twice", horizon=12)
+        _declare_n(cname, 2)
+        return Ctx(problem=pb2, phi_once=phi_once)
+
+    def obligations(ctx):
+        c1, _ = formula.constants(ctx.phi_once)
+        c2, _ = formula.constants(ctx.phi)
+        shared = [c for n, c in c2.items() if n in c1 and "_maybe_busy_" not in n]
+        return [Ob(f"{PROP}/{name}/second_declaration_loses_no_schedule", "complete", valid=And(buffer_witness(list(ctx.phi_once))),
+                   observables=shared, phi=list(ctx.phi), transform=buffer_witness, replayer="checks.c05:replay_repeated_rule")]
+
+    sh = Shape(name, build, obligations)
+    sh.grid = False
+    sh.cname = cname
+    return sh
+
+
+def replay_repeated_rule(desc):
+    import symx.harness as H
+    from symx import engine
+    from symx.harness import quiet
+
+    shape = H.get_shape(desc["module"], desc["shape"])
+    w = desc["witness"]
+    res = {}
+    for n in (1, 2):
+        with quiet():
+            pb = ps.SchedulingProblem(name="replay", horizon=12)
+            _declare_n(shape.cname, n)
+            probe = ps.SchedulingSolver(problem=pb)
+            probe.initialize()
+            consts, _ = formula.constants(list(probe._solver.assertions()))
+            k = 0
+            for nm, v in (w.get("pins") or {}).items():
+                if "!" in nm or nm not in consts or "_maybe_busy_" in nm or nm.startswith(("Selected_", "constraint_", "Indicator_", "task_group_")):
+                    continue
+                if not isinstance(v, (bool, int)) or z3.is_bool(consts[nm]) != isinstance(v, bool) or not (z3.is_int(consts[nm]) or z3.is_bool(consts[nm])):
+                    continue
+                ps.ConstraintFromExpression(name=f"__pin_{k}", expression=(consts[nm] == (z3.BoolVal(v) if isinstance(v, bool) else v)))
+                k += 1
+            res[n] = bool(ps.SchedulingSolver(problem=pb).solve())
+        engine.reset_z3_globals()
+    print(f"replay: pinned schedule: declared once -> {res[1]}; declared twice -> {res[2]}")
+    if res[1] and not res[2]:
+        print(f"CONFIRMED: declaring {shape.cname} a second time with the same arguments removes a schedule")
+        return 1
+    return 0
+
+
 # --- (d) buffers -----------------------------------------------------------------------------------
 def buffer_valid(ctx):
     acc = ctx.accesses
@@ -587,6 +685,8 @@ def shapes(tier):
             out.append(ties_shape(rule, kinds))
     if thorough:
         out.append(ties_shape("ResourceNonDelay", ("fixed",)))
+    for cname in _constraint_classes():
+        out.append(repeated_rule_shape(cname))
     for what in MEASURES:
         for how in ("worker", "cumulative"):
             if what in ("due_dates", "objectives_sum", "objectives_extrema") and how == "cumulative":
